@@ -721,23 +721,42 @@ def replay_cases(cases):
 
 
 def judge_c09(check, records, name="TypesTrace", stat=False):
+    """TLC judges the records; large record sets are split into chunks of <= 25 MB judged by up to three TLC
+    processes at a time (one TLC process reads its JSON input single-threaded)."""
+    import concurrent.futures as cf
     os.makedirs(WORKD, exist_ok=True)
-    path = os.path.join(WORKD, "c09_trace_%d.ndjson" % os.getpid())
-    with open(path, "w") as f:
-        for r in records:
-            f.write(json.dumps(r) + "\n")
-    env = {"TYPES_TRACE": path}
-    if stat:
-        env["TYPES_STAT"] = "1"
-    res = common.tlc("TypesTrace", "TypesTrace.cfg", env=env, workers=8, timeout=3000, extra=["-continue"])
-    if res.eval_error or (not res.ok and not res.violated):
-        raise common.ToolError("TypesTrace failed: " + res.out[-1500:])
-    check.add_tlc(name, res)
-    mism = prints_of(res, MISMATCH_PREFIX)
-    stats = prints_of(res, STAT_PREFIX)
-    if res.violated and not mism:
-        raise common.ToolError("TypesTrace reports a violation without a MISMATCH line")
-    os.remove(path)
+    chunks, cur, size = [], [], 0
+    for r in records:
+        line = json.dumps(r) + "\n"
+        if cur and size + len(line) > 25_000_000:
+            chunks.append(cur)
+            cur, size = [], 0
+        cur.append(line)
+        size += len(line)
+    chunks.append(cur)
+
+    def one(i):
+        path = os.path.join(WORKD, "c09_trace_%d_%d.ndjson" % (os.getpid(), i))
+        with open(path, "w") as f:
+            f.writelines(chunks[i])
+        env = {"TYPES_TRACE": path}
+        if stat:
+            env["TYPES_STAT"] = "1"
+        res = common.tlc("TypesTrace", "TypesTrace.cfg", env=env, workers=8 if len(chunks) == 1 else 5, timeout=3000,
+                         extra=["-continue"], metadir=os.path.join(WORKD, "tlc_c09_%d_%d" % (os.getpid(), i)))
+        os.remove(path)
+        return res
+    mism, stats = [], []
+    with cf.ThreadPoolExecutor(max_workers=3) as ex:
+        for i, res in enumerate(ex.map(one, range(len(chunks)))):
+            if res.eval_error or (not res.ok and not res.violated):
+                raise common.ToolError("TypesTrace failed: " + res.out[-1500:])
+            check.add_tlc(name if len(chunks) == 1 else "%s[%d/%d]" % (name, i + 1, len(chunks)), res)
+            m = prints_of(res, MISMATCH_PREFIX)
+            if res.violated and not m:
+                raise common.ToolError("TypesTrace reports a violation without a MISMATCH line")
+            mism += m
+            stats += prints_of(res, STAT_PREFIX)
     return mism, stats
 
 
